@@ -68,9 +68,181 @@ let c09judge args = match args with
       (pb (excerpt_ok t p (to_list to_nat msg)))
   | _ -> failwith "c09judge args"
 
+
+(* ---- expression model: readers ---- *)
+let sym = function A a -> a | L _ -> failwith "symbol expected"
+let to_opt f = function A "none" -> None | x -> Some (f x)
+
+let to_pyfun = function
+  | A "int" -> FInt | A "len" -> FLen | A "bool" -> FBool | A "tuple" -> FTuple | A "odd" -> FOdd
+  | L [A "eqvar"; x] -> FEqVar (to_nat x)
+  | L [A "lengtvar"; x] -> FLenGtVar (to_nat x)
+  | L [A "tag3"; p; a] -> FTag3 (to_nat p, to_nat a)
+  | L [A "tag2"; p] -> FTag2 (to_nat p)
+  | L [A "kleneq"; x; y] -> FKLenEq (to_nat x, to_nat y)
+  | L [A "kvar"; x] -> FKVar (to_nat x)
+  | _ -> failwith "pyfun"
+let to_pyexpr = function
+  | A "pnone" -> PNone | A "ptrue" -> PTrue | A "pfalse" -> PFalse
+  | L [A "num"; n] -> PNum (to_nat n)
+  | L [A "var"; x] -> PVar (to_nat x)
+  | L [A "fn"; f] -> PFn (to_pyfun f)
+  | L [A "leneq"; x; y] -> PLenEq (to_nat x, to_nat y)
+  | L [A "succ"; x] -> PSucc (to_nat x)
+  | _ -> failwith "pyexpr"
+let to_bound = function
+  | A "none" -> BNone
+  | L [A "lit"; n] -> BLit (to_nat n)
+  | L [A "var"; x] -> BVar (to_nat x)
+  | _ -> failwith "bound"
+let to_arg = function
+  | L [A "rule"; r] -> ARule (to_nat r)
+  | L [A "local"; x] -> ALocal (to_nat x)
+  | L [A "py"; p] -> APy (to_pyexpr p)
+  | L [A "strlit"; s; sk] -> AStrLit (to_list to_nat s, to_bool sk)
+  | L [A "fun"; fid; fv] -> AFun (to_nat fid, to_list to_nat fv)
+  | _ -> failwith "arg"
+let rec to_expr = function
+  | A "Fail" -> Fail
+  | L [A "Str"; s; sk] -> Str (to_list to_nat s, to_bool sk)
+  | L [A "Rx"; id; sk] -> Rx (to_nat id, to_bool sk)
+  | L [A "Byte"; b; sk] -> Byte (to_nat b, to_bool sk)
+  | L [A "Ref"; r] -> Ref (to_nat r)
+  | L [A "Seq"; es] -> Seq (to_list to_expr es)
+  | L [A "Discard"; a; b; dl] -> Discard (to_expr a, to_expr b, to_bool dl)
+  | L [A "Choice"; es] -> Choice (to_list to_expr es)
+  | L [A "Opt"; e] -> Opt (to_expr e)
+  | L [A "Rep"; e; mn; mx] -> Rep (to_expr e, to_bound mn, to_bound mx)
+  | L [A "Expect"; e] -> Expect (to_expr e)
+  | L [A "ExpectNot"; e] -> ExpectNot (to_expr e)
+  | L [A "Skip"; es] -> Skip (to_list to_expr es)
+  | L [A "Longest"; es] -> Longest (to_list to_expr es)
+  | L [A "Backtrack"; k] -> Backtrack (to_nat k)
+  | L [A "Sep"; e; s; d; t; ae; rs] -> Sep (to_expr e, to_expr s, to_bool d, to_bool t, to_bool ae, to_bool rs)
+  | L [A "Py"; p] -> Py (to_pyexpr p)
+  | L [A "Apply"; a; b; al] -> Apply (to_expr a, to_expr b, to_bool al)
+  | L [A "Where"; e; p] -> Where (to_expr e, to_expr p)
+  | L [A "Let"; x; e; b] -> Let (to_nat x, to_expr e, to_expr b)
+  | L [A "Class"; c; ms] ->
+      Class (to_nat c, to_list (function
+        | L [nm; isf; e] -> ((to_opt to_nat nm, to_bool isf), to_expr e)
+        | _ -> failwith "member") ms)
+  | L [A "OpTable"; pre; opd; post; inf] ->
+      OpTable (to_opt to_expr pre, to_expr opd, to_opt to_expr post, to_opt to_expr inf)
+  | L [A "RefL"; x] -> RefL (to_nat x)
+  | L [A "Call"; callee; args] ->
+      let c = (match callee with
+        | L [A "rule"; r] -> Inl (to_nat r)
+        | L [A "local"; x] -> Inr (to_nat x)
+        | _ -> failwith "callee") in
+      Call (c, to_list (function L [k; a] -> (to_opt to_nat k, to_arg a) | _ -> failwith "callarg") args)
+  | _ -> failwith "expr"
+let to_rule = function L [ps; b] -> (to_list to_nat ps, to_expr b) | _ -> failwith "rule"
+
+(* ---- printers ---- *)
+let rec pv = function
+  | VNone -> "none"
+  | VBool b -> "(bool " ^ pb b ^ ")"
+  | VStr s -> "(str " ^ plist pn s ^ ")"
+  | VInt n -> "(int " ^ pn n ^ ")"
+  | VList l -> "(list " ^ plist pv l ^ ")"
+  | VTuple l -> "(tuple " ^ plist pv l ^ ")"
+  | VObj (c, fs, (s, e)) -> "(obj " ^ pn c ^ " " ^ plist pv fs ^ " " ^ pn s ^ " " ^ pn e ^ ")"
+  | VNode (k, l) -> "(node " ^ pn k ^ " " ^ plist pv l ^ ")"
+  | VFun _ -> "fun"
+  | VLit (s, _) -> "(str " ^ plist pn s ^ ")"
+  | VRule r -> "(rule " ^ pn r ^ ")"
+  | VClos (f, _) -> "(clos " ^ pn f ^ ")"
+  | VErr n -> "(err " ^ pn n ^ ")"
+
+let rec int_of_pos = function XH -> 1 | XO p -> 2 * int_of_pos p | XI p -> 2 * int_of_pos p + 1
+let int_of_z = function Z0 -> 0 | Zpos p -> int_of_pos p | Zneg p -> - (int_of_pos p)
+let rec pos_of_int i = if i = 1 then XH else if i mod 2 = 0 then XO (pos_of_int (i / 2)) else XI (pos_of_int (i / 2))
+let z_of_int i = if i = 0 then Z0 else if i > 0 then Zpos (pos_of_int i) else Zneg (pos_of_int (- i))
+let pfpos ((i, l), c) = "(" ^ string_of_int (int_of_z i) ^ " " ^ pn l ^ " " ^ pn c ^ ")"
+let rec pfv = function
+  | FNone -> "none"
+  | FBoolV b -> "(bool " ^ pb b ^ ")"
+  | FStr s -> "(str " ^ plist pn s ^ ")"
+  | FNat n -> "(int " ^ pn n ^ ")"
+  | FList l -> "(list " ^ plist pfv l ^ ")"
+  | FTup l -> "(tuple " ^ plist pfv l ^ ")"
+  | FObj (c, fs, (a, b)) -> "(obj " ^ pn c ^ " " ^ plist pfv fs ^ " " ^ pfpos a ^ " " ^ pfpos b ^ ")"
+  | FNode (k, l) -> "(node " ^ pn k ^ " " ^ plist pfv l ^ ")"
+  | FOther -> "other"
+
+(* regex oracle: table.(id).(pos) = end or -1 *)
+let mk_rx (tab : int array array) : nat -> nat -> nat option =
+  fun id p ->
+    let i = int_of_nat id and q = int_of_nat p in
+    if i < Array.length tab && q < Array.length tab.(i) && tab.(i).(q) >= 0
+    then Some (nat_of_int tab.(i).(q)) else None
+let to_rxtab x : int array array =
+  Array.of_list (to_list (fun row -> Array.of_list (to_list to_int row)) x)
+
+(* (runs lf named ign rules funs fuel ((text rxtab entry pos full) ...)) *)
+let runs args = match args with
+  | [lf; named; ign; rules; funs; fuel; cases] ->
+    let lf = to_bool lf and named = to_bool named and ign = to_opt to_nat ign in
+    let g = to_list to_rule rules and fs = to_list to_rule funs in
+    let fuel = to_nat fuel in
+    let one = function
+      | L [text; rxtab; entry; pos; full] ->
+        let t = to_list to_nat text and rx = mk_rx (to_rxtab rxtab) in
+        let entry = to_nat entry and p = to_nat pos and full = to_bool full in
+        let body = (match nth_error g entry with Some (_, b) -> b | None -> failwith "entry") in
+        let x = (match exec lf g fs named ign t rx fuel body (fresh p) with
+          | Done s -> if s.status then "(done true " ^ pv s.result ^ " " ^ pn s.pos ^ ")"
+                      else "(done false " ^ pn s.pos ^ ")"
+          | OutOfFuel -> "fuel"
+          | Stuck n -> "(stuck " ^ pn n ^ ")") in
+        let spec = peg g ign t rx fuel [] body p in
+        let sp = (match spec with
+          | Fuel -> "fuel" | Raise -> "raise" | Fails -> "fails"
+          | Match (v, q) -> "(match " ^ pv v ^ " " ^ pn q ^ ")") in
+        let pm = (match parse_model lf g fs named ign t rx fuel entry p full with
+          | Return v -> "(return " ^ pfv v ^ ")"
+          | Partial (v, fp) -> "(partial " ^ pfv v ^ " " ^ pfpos fp ^ ")"
+          | ParseErr i -> "(perr " ^ pn i ^ ")"
+          | Crash n -> "(crash " ^ pn n ^ ")"
+          | Fuel0 -> "fuel") in
+        (* the outcome the SPEC dictates: peg's result, spans finalised *)
+        let sq = (match spec with
+          | Fuel -> "fuel" | Raise -> "raise" | Fails -> "perr"
+          | Match (v, q) ->
+            (match finalize t v with
+             | None -> "(crash 1)"
+             | Some fv ->
+               if full && int_of_nat q < List.length t
+               then (match fin_pos t (z_of_int (int_of_nat q)) with
+                     | Some fp -> "(partial " ^ pfv fv ^ " " ^ pfpos fp ^ ")"
+                     | None -> "(crash 1)")
+               else "(return " ^ pfv fv ^ ")")) in
+        x ^ "\t" ^ sp ^ "\t" ^ pm ^ "\t" ^ sq
+      | _ -> failwith "case" in
+    String.concat "|" (List.map one (match cases with L l -> l | _ -> failwith "cases"))
+  | _ -> failwith "runs args"
+
+(* flags of every node, preorder *)
+let rec children = function
+  | Seq es | Choice es | Skip es | Longest es -> es
+  | Discard (a, b, _) | Apply (a, b, _) | Where (a, b) | Sep (a, b, _, _, _, _) | Let (_, a, b) -> [a; b]
+  | Opt e | Expect e | ExpectNot e | Rep (e, _, _) -> [e]
+  | Class (_, ms) -> List.map snd ms
+  | OpTable (pre, opd, post, inf) ->
+      let o = function Some e -> [e] | None -> [] in o pre @ [opd] @ o post @ o inf
+  | _ -> []
+let rec flags lf e =
+  (pb (always e) ^ " " ^ pb (partial lf e)) :: List.concat (List.map (flags lf) (children e))
+let flags_cmd = function
+  | [lf; e] -> "(" ^ String.concat " " (flags (to_bool lf) (to_expr e)) ^ ")"
+  | _ -> failwith "flags args"
+
 let dispatch = function
   | L (A "c09" :: args) -> c09 args
   | L (A "c09judge" :: args) -> c09judge args
+  | L (A "runs" :: args) -> runs args
+  | L (A "flags" :: args) -> flags_cmd args
   | _ -> failwith "unknown command"
 
 let () =
